@@ -304,7 +304,7 @@ PROPS["C02"] = {
     "bounds": {"operations": 1, "writes_per_event": 2, "writev_segments": "1..2 (+1025 concrete)", "sizes": "<= 2^31"},
     "outside": ["real kernel behaviour beyond the stub contract", "multi-goroutine issue order (C03)"],
     "assumptions": ["ghost kernel contract", "pool contracts (C12)"],
-    "units": [dict(_LOOP_COMMON, name="loop-outbound", files=["harness/gnet/vloop_world.go", "harness/gnet/c14_pick.go", "harness/gnet/c02_outbound.go", "harness/gnet/c02_reactor.go"], cfg={"vcfg": {"writes": 2, "nodes": 1, "segs": 2, "any_shape": 0}}, cfg_thorough={"vcfg": {"writes": 3, "nodes": 1, "segs": 2, "any_shape": 1}})],
+    "units": [dict(_LOOP_COMMON, name="loop-outbound", files=["harness/gnet/vloop_world.go", "harness/gnet/c14_pick.go", "harness/gnet/c02_outbound.go", "harness/gnet/c02_reactor.go"], cfg={"vcfg": {"writes": 2, "nodes": 1, "segs": 2, "any_shape": 0}}, cfg_thorough={"vcfg": {"writes": 3, "nodes": 1, "segs": 2, "any_shape": 1}}, skip="VH_C02_ReactorFollowUpChain")],
 }
 
 PROPS["C18"] = {
@@ -480,6 +480,16 @@ def _patch_units():
         open(out, "w").write(t + "\nvar _ = goroutine.DefaultWorkerPool // keep the import alive (verification overlay)\n")
     enroll_rw = dict(_LOOP_REWRITES, **{"eventloop_unix.go": el_enroll, "client_unix.go": _vk_redirect(enroll_pairs + [("socket.SetSendBuffer(", "vk.SockOpt("), ("socket.SetRecvBuffer(", "vk.SockOpt("), ("socket.SetNoDelay(", "vk.SockOpt("), ("unix.Close(", "vk.Close(")])})
     PROPS["C07"]["units"].append(dict(_LOOP_COMMON, name="loop-enroll", files=["harness/gnet/vloop_world.go", "harness/gnet/c14_pick.go", "harness/gnet/c07_enroll.go"], rewrites=enroll_rw, cfg={"vcfg": {"nodes": 1}}))
+    def el_iov1(src, out):
+        _LOOP_REWRITES["eventloop_unix.go"](src, out)
+        t = open(out).read()
+        if "const iovMax = 1024" not in t:
+            raise RuntimeError("eventloop_unix.go: iovMax constant not found")
+        open(out, "w").write(t.replace("const iovMax = 1024", "const iovMax = 1"))
+    PROPS["C02"]["units"].append(dict(_LOOP_COMMON, name="loop-outbound-iov1", tier="thorough",
+                                      files=["harness/gnet/vloop_world.go", "harness/gnet/c14_pick.go", "harness/gnet/c02_outbound.go", "harness/gnet/c02_reactor.go"],
+                                      rewrites=dict(_LOOP_REWRITES, **{"eventloop_unix.go": el_iov1}), only="VH_C02_ReactorFollowUpChain",
+                                      cfg={"vcfg": {"writes": 3, "nodes": 1, "segs": 2, "any_shape": 0, "iov_scaled": 1}}))
     for pid in ("C04", "C17"):
         PROPS[pid]["units"].append(dict(_LOOP_COMMON, name="loop-enroll-" + pid.lower(), files=["harness/gnet/vloop_world.go", "harness/gnet/c14_pick.go", "harness/gnet/c07_enroll.go"], rewrites=enroll_rw, cfg={"vcfg": {"nodes": 1}}))
     PROPS["C19"]["units"].append(dict(_LOOP_COMMON, name="loop-enroll-c19", files=["harness/gnet/vloop_world.go", "harness/gnet/c14_pick.go", "harness/gnet/c07_enroll.go"], rewrites=enroll_rw, cfg={"vcfg": {"nodes": 1}}))
